@@ -6,6 +6,7 @@ EX = "cli/src/import/extract.rs"
 QU = "core/src/report/query.rs"
 PD = "core/src/report/price_db.rs"
 CFG = "cli/src/import/config.rs"
+CSV = "cli/src/import/csv.rs"
 
 SORT_PROOF = lambda model, view, mapexpr, le: (
     "let ghost pre__ = {v}; {m}; proof {{ det::lemma_sorted_perm_canonical(pre__, {v}, {mp}, {le}); }}"
@@ -89,7 +90,8 @@ GROUP = {
         ("raw", "pub mod config {\nuse super::*;\n"),
         U("config::RewriteField", CFG, [r"pub enum RewriteField\b"]),
         U("config::FieldMatcher", CFG, [r"pub struct FieldMatcher\b"]),
-        ("raw", "}\n"),
+        U("config::FieldKey", CFG, [r"pub enum FieldKey\b"]),
+        ("raw", "#[verifier::external_body]\npub struct FieldPos { _p: usize }   // stand-in (never looked inside)\n}\n"),
         ("text", "determinism_fields.rs"),
         U("callsite:MatchAndExpr::try_from.order", EX, [r"impl<M: EntityMatcher> TryFrom<&config::FieldMatcher> for MatchAndExpr<M>", r"fn try_from\b"], fn="matcher_field_order", no_canary=True,
           slice=r"(let mut fields: Vec<[^;]*;\s*(?:fields\.sort_unstable_by_key\([^;]*;)?)\s*let matchers", slice_count=1,
@@ -104,5 +106,19 @@ GROUP = {
           rewrites=[("R24-hashmap-collect", "from.fields.iter().collect()", "hashmap_entries(&from.fields)", 1),
                     ("R24-sort-by-field", "fields.sort_unstable_by_key(|(fd, _)| **fd);",
                      SORT_PROOF("sort_unstable_by_field(&mut fields)", "refs_view(fields@)", "from.fields@", "field_le()"), "opt")]),
+        # ---- CSV import: the order in which the configured fields are resolved decides which invalid field is reported
+        U("callsite:FieldMap::try_new.order", CSV, [r"impl FieldMap\b", r"fn try_new\b"], fn="csv_field_order", no_canary=True,
+          slice=r"(let mut fields: Vec<[^;]*;\s*(?:fields\.sort_unstable_by_key\([^;]*;)?)\s*for \(&k, pos\) in fields", slice_count=1,
+          slice_template="""fn csv_field_order<'a>(config_mapping: &'a HashMap<config::FieldKey, config::FieldPos>) -> (fields: Vec<(&'a config::FieldKey, &'a config::FieldPos)>)
+    ensures
+        // C13: the configured fields are resolved (and the first invalid one reported) in an order that depends on the config alone
+        det::is_canonical(refs_view(fields@), config_mapping@, fieldkey_le()),   // @FieldMap.try_new.field_order_is_function_of_the_config
+{
+    {EXPR}
+    fields
+}""",
+          rewrites=[("R24-hashmap-collect", "config_mapping.iter().collect()", "hashmap_entries(config_mapping)", 1),
+                    ("R24-sort-by-field", "fields.sort_unstable_by_key(|(k, _)| **k);",
+                     SORT_PROOF("sort_unstable_by_fieldkey(&mut fields)", "refs_view(fields@)", "config_mapping@", "fieldkey_le()"), "opt")]),
     ],
 }
